@@ -212,7 +212,8 @@ def _time(rng, mode: str) -> float:
 
 def _num(rng, mode: str) -> float:
     """A general float field: repr-exact in text, float32 in binary."""
-    v = rng.choice((0.0, 1.0, -1.0, 0.5, 0.1, 1e-05, 123456.789, rng.uniform(-10, 10), rng.uniform(0, 1)))
+    v = rng.choice((0.0, 1.0, -1.0, 0.5, 0.1, 1e-05, 123456.789, rng.uniform(-10, 10), rng.uniform(0, 1),
+                    -0.0, 1e-39, 1e+20, -123456789.0, 2.0 ** 31, 16777217.0))  # negative zero, a float32 denormal, values that print with an exponent
     return v if mode == 'text' else f32(v)
 
 
